@@ -185,7 +185,7 @@ func (r *SparseInt32Vector) VmulV(a, b ConstVector) Vector {
     s_a := it.s2
     s_b := it.s3
     if s_r.ptr == nil {
-      continue
+      s_r = r.AT(it.Index())
     }
     s_r.Mul(s_a, s_b)
   }
@@ -221,7 +221,7 @@ func (r *SparseInt32Vector) VmulS(a ConstVector, b ConstScalar) Vector {
     s_r := it.s1
     s_a := it.s2
     if s_r.ptr == nil {
-      continue
+      s_r = r.AT(it.Index())
     }
     s_r.Mul(s_a, b)
   }
